@@ -201,7 +201,10 @@ OPS = [
     ("GetMetadata", "get_metadata", []),
 ]
 NOT_SCRIPTS = {"__init__", "commit", "conditional_commit"}
-INLINABLE = {"replace", "get_metadata"}
+# private helpers: no constructor of the model's `op` (nobody outside the class calls them), but a
+# script of their own (Model/Commit.v: script__replace) that the methods calling them inline
+HELPERS = ["_replace"]
+INLINABLE = {"replace", "get_metadata", "_replace"}
 
 
 class _BulkRaised(Exception):
@@ -213,8 +216,11 @@ class Script:
     walk follows the path on which the executemany raises part-way: the rows that went
     through are `rows`, `rest` more were given; after it only `finally` clauses run."""
 
-    def __init__(self, cls, name, bulk_fails=False):
+    def __init__(self, cls, name, bulk_fails=False, upsert_fails=False):
         self.bulk_fails = bulk_fails
+        # the path on which a statement of the upsert loop raises: `ups` are the upserts that ran,
+        # `rest_ups` more were in the list, `nrows` rows were waiting for the bulk statement
+        self.upsert_fails = upsert_fails
         self.cls = cls
         self.name = name
         self.fn = _method(cls, name)
@@ -226,6 +232,12 @@ class Script:
         self.uncounted = 0       # write statements not yet followed by commit / conditional_commit
         self.many_rows = None    # python name of the executemany argument
         self.upsert_src = None   # python name of the list the upsert loop runs over
+        self.upsert_loop_seen = False
+        self.bulk_arg = None     # python name of the (one) executemany argument, found by a pre-scan
+        for n in ast.walk(self.fn):
+            if isinstance(n, ast.Call) and isinstance(n.func, ast.Attribute) and n.func.attr == "executemany" \
+                    and len(n.args) == 2 and isinstance(n.args[1], ast.Name):
+                self.bulk_arg = n.args[1].id
         self.before_bulk = None  # items before the executemany (for InsertManyFailed)
         self.guard = None        # (param, items) for get_events' early return
 
@@ -336,12 +348,31 @@ class Script:
                 k = f"{a.value}"
                 # the count must be the number of statements it follows (the model's
                 # qscript blocks); anything else is emitted as it is and the bridge decides
-            elif isinstance(a, ast.Call) and isinstance(a.func, ast.Name) and a.func.id == "len" \
-                    and len(a.args) == 1 and isinstance(a.args[0], ast.Name) and a.args[0].id == self.many_rows:
-                # on the failing path `rows` are the rows that went through, len() is of all rows
-                k = "(Z.of_nat (length rows + rest))" if self.bulk_fails else "(Z.of_nat (length rows))"
             else:
-                raise Fail(f"{self.name}: unsupported conditional_commit argument")
+                # len(<list>) or a sum of such: the list handed to executemany (on the failing path
+                # `rows` are the rows that went through, len() is of all rows) and the list the
+                # upsert loop ran over (the loop must have been seen: `ups` is its parameter)
+                terms = []
+                for t in self.sum_terms(a):
+                    if not (isinstance(t, ast.Call) and isinstance(t.func, ast.Name) and t.func.id == "len"
+                            and len(t.args) == 1 and not t.keywords and isinstance(t.args[0], ast.Name)):
+                        raise Fail(f"{self.name}: unsupported conditional_commit argument")
+                    nm = t.args[0].id
+                    if self.upsert_fails and self.many_rows is None and nm == self.bulk_arg:
+                        # the bulk statement was not reached; its rows had been built
+                        terms.append("nrows")
+                        if ("nrows", "nat") not in self.params:
+                            self.params.append(("nrows", "nat"))
+                    elif nm == self.many_rows:
+                        terms.append("(length rows + rest)" if self.bulk_fails else "length rows")
+                    elif nm == self.upsert_src and self.upsert_loop_seen:
+                        terms.append("(length ups + rest_ups)" if self.upsert_fails else "length ups")
+                    else:
+                        raise Fail(f"{self.name}: conditional_commit counts len({nm}), which is neither the rows "
+                                   "of the bulk statement nor the list of an upsert loop already run")
+                if len(terms) != len(set(terms)):
+                    raise Fail(f"{self.name}: conditional_commit counts a list twice")
+                k = "(Z.of_nat (" + " + ".join(terms) + "))"
             self.items.append(f"[CondCommit {k}]")
             self.uncounted = 0
         elif kind.startswith("inline:"):
@@ -360,8 +391,16 @@ class Script:
             if loop_var and len(sub.params) != 1:
                 raise Fail(f"{self.name}: inlined {m} inside a loop must issue exactly one statement")
             self.items.append(("gen_script_" + m + " " + " ".join(args)).strip())
+            if sub.uncounted != 0:     # the helper leaves its statement to the caller's commit / conditional_commit
+                self.uncounted = sub.uncounted if self.uncounted == 0 else "mixed"
         else:
             raise Fail("internal: " + kind)
+
+    @staticmethod
+    def sum_terms(e):
+        if isinstance(e, ast.BinOp) and isinstance(e.op, ast.Add):
+            return Script.sum_terms(e.left) + Script.sum_terms(e.right)
+        return [e]
 
     # -- statements
     def note_locals(self, st):
@@ -416,6 +455,8 @@ class Script:
                         raise Fail(f"{self.name}: unsupported upsert loop body")
                     if self.uncounted != 0:
                         raise Fail(f"{self.name}: loop entered with uncounted statements")
+                    if self.upsert_loop_seen:
+                        raise Fail(f"{self.name}: two upsert loops")
                     save = self.items
                     self.items = []
                     self.emit_call(calls[0][0], calls[0][1], loop_var="u")
@@ -423,6 +464,10 @@ class Script:
                     self.items = save
                     self.params.append(("ups", "list Z"))
                     self.items.append(f"flat_map (fun u => {inner}) ups")
+                    self.upsert_loop_seen = True
+                    if self.upsert_fails:
+                        self.params.append(("rest_ups", "nat"))
+                        raise _BulkRaised()
                 # else: pure loop (building event_rows)
             elif isinstance(st, ast.Try):
                 # try: <statements> finally: <statements>  (no except/else: nothing is swallowed)
@@ -462,6 +507,8 @@ class Script:
             self.run_body(self.fn.body)
             if self.bulk_fails:
                 raise Fail(f"{self.name}: no bulk statement found")
+            if self.upsert_fails:
+                raise Fail(f"{self.name}: no upsert loop found")
         except _BulkRaised:
             pass
         return self
@@ -481,7 +528,7 @@ class Script:
 def tr_scripts(repo):
     _, cls = _cls(repo, SQLITE, "SqliteStorage")
     methods = [n.name for n in cls.body if isinstance(n, ast.FunctionDef)]
-    known = {m for _, m, _ in OPS} | NOT_SCRIPTS
+    known = {m for _, m, _ in OPS} | NOT_SCRIPTS | set(HELPERS)
     extra = [m for m in methods if m not in known]
     if extra:
         raise Fail("SqliteStorage has methods without a script in the model: " + ", ".join(extra))
@@ -511,11 +558,25 @@ def tr_scripts(repo):
                 raise Fail(f"__init__: {ast.unparse(escapes[0])} is not followed by self.commit()")
     out = []
     scripts = {}
-    order = ["get_metadata", "replace"] + [m for _, m, _ in OPS if m not in ("get_metadata", "replace")]
+    order = ["get_metadata"] + HELPERS + ["replace"] + [m for _, m, _ in OPS if m not in ("get_metadata", "replace")]
     for m in order:
         s = Script(cls, m).run()
         scripts[m] = s
         out.append(s.definition())
+    # a helper that leaves its statement uncounted may only be called from inside the class
+    # (insert_many's loop, replace): nothing else in the package may reach it
+    for h in HELPERS:
+        for root, _, files in os.walk(os.path.join(repo, "aw_datastore")):
+            for f in files:
+                if not f.endswith(".py"):
+                    continue
+                path = os.path.join(root, f)
+                t = ast.parse(open(path).read())
+                for n in ast.walk(t):
+                    if isinstance(n, ast.Attribute) and n.attr == h \
+                            and not (isinstance(n.value, ast.Name) and n.value.id == "self"
+                                     and os.path.samefile(path, os.path.join(repo, SQLITE))):
+                        raise Fail(f"{h} is used outside SqliteStorage ({os.path.relpath(path, repo)} line {n.lineno})")
     im = scripts["insert_many"]
     if im.before_bulk is None:
         raise Fail("insert_many: no bulk statement found")
@@ -525,6 +586,14 @@ def tr_scripts(repo):
         raise Fail(f"insert_many (failing path): unexpected parameters {imf.params}")
     out.append("Definition gen_script_insert_many_failed (ups : list Z) (rows : list Z) (rest : nat) : list micro :=\n  "
                + imf.text() + ".\n")
+    # a statement of the upsert loop raises (bind-time OverflowError of an id-carrying event): the
+    # upserts before it stay in the open transaction; what still runs is read off the source
+    imu = Script(cls, "insert_many", upsert_fails=True).run()
+    if imu.params != [("ups", "list Z"), ("rest_ups", "nat"), ("nrows", "nat")]:
+        raise Fail(f"insert_many (failing upsert): unexpected parameters {imu.params} "
+                   "(no conditional_commit that counts the upserts and the rows runs on that path)")
+    out.append("Definition gen_script_insert_many_upsert_failed (ups : list Z) (rest_ups : nat) (nrows : nat) : list micro :=\n  "
+               + imu.text() + ".\n")
     arms = []
     for ctor, m, types in OPS:
         ps = scripts[m].params
